@@ -223,7 +223,7 @@ Proof.
                   = match rest with c' :: _ => cc_pix c' | [] => None end) by (destruct rest; reflexivity).
     rewrite Ear. set (e := mk_edges (cc_pix c) (lc_pix left) al match rest with c' :: _ => cc_pix c' | [] => None end).
     destruct (mh_skip (ms_hdr m)) eqn:Esk.
-    + destruct (Hm eq_refl) as (C1 & C2 & C3 & C4).
+    + destruct (Hm Esk) as (C1 & C2 & C3 & C4).
       assert (Epix : enc_recon_mb h m e = recon_mb (ms_hdr m) (zero_res (negb (mh_is4 (ms_hdr m)))) e).
       { rewrite enc_mb_eq_dec, C1, C2, C3, C4, res_of_empty. reflexivity. }
       rewrite Epix. set (pix := recon_mb (ms_hdr m) (zero_res (negb (mh_is4 (ms_hdr m)))) e).
@@ -241,4 +241,52 @@ Proof.
       cbv zeta in IH. cbn [lc_pix] in IH.
       destruct (row_syn qk h rest _ (cc_pix c) mtl) as [[[cols' out] s0] sT]. cbn [fst snd] in IH |- *.
       destruct IH as [I1 I2]. cbn [map cc_pix fst]. rewrite I1, I2. split; reflexivity.
+Qed.
+
+Lemma wf_row_len h : forall cols left mbs, wf_row h cols left mbs -> length mbs = length cols.
+Proof.
+  induction cols as [|c rest IH]; intros left mbs H; destruct mbs as [|m mtl]; cbn [wf_row] in H; try contradiction; [reflexivity|].
+  destruct H as (_ & _ & _ & _ & H). cbn [length]. f_equal. eapply IH. exact H.
+Qed.
+
+Lemma enc_rows_eq qk h : forall rows cols, choices_ok rows -> wf_rows_syn qk h cols rows ->
+  enc_rows h (map cc_pix cols) rows = map (map fst) (fst (fst (rows_syn qk h cols rows))).
+Proof.
+  induction rows as [|mbs rtl IH]; intros cols Hc Hwf; cbn [enc_rows rows_syn]; [reflexivity|].
+  cbn [wf_rows_syn] in Hwf. destruct Hwf as [Hrow Hrest].
+  pose proof (enc_row_eq qk h cols left0 None mbs (Forall_inv Hc) (wf_row_len h _ _ _ Hrow)) as H. cbv zeta in H.
+  destruct (row_syn qk h cols left0 None mbs) as [[[cols' out] s0] sT]. cbn [fst snd] in H, Hrest.
+  destruct H as [H1 H2]. cbn [lc_pix left0] in H1.
+  specialize (IH cols' (Forall_inv_tail Hc) Hrest).
+  destruct (rows_syn qk h cols' rtl) as [[outs s0s] sTs]. cbn [fst snd map] in IH |- *.
+  rewrite H1. f_equal. rewrite <- H2. exact IH.
+Qed.
+
+(** the encoder data path: choices (header, modes, levels) -> emitted bytes and reconstruction *)
+Definition enc_frame (s : frame_syn) : Res (list Z) * (Z * Z * planes) :=
+  let h := fs_hdr s in
+  (emit_key_frame rfc_quirks s,
+   (fh_w h, fh_h h, planes_of (fh_w h) (fh_h h) (enc_rows h (map cc_pix (fs_cols s)) (fs_rows s)))).
+
+(** No drift: for every well-formed set of choices whose frame passes the encoder's size guards,
+    the specification decoder reconstructs from the emitted bytes, before the loop filter,
+    exactly the encoder's reconstruction, with the source's dimensions; with the loop filter off
+    (level 0) the decoded picture itself is that reconstruction. *)
+Theorem no_drift s bs : wf_frame_syn rfc_quirks s -> choices_ok (fs_rows s) ->
+  fst (enc_frame s) = Ok bs ->
+  decode_unfiltered bs = Ok (snd (enc_frame s)) /\
+  (lf_level (fh_lf (fs_hdr s)) = 0 ->
+   exists r, decode bs = Ok r /\ (dc_w r, dc_h r, dc_filtered r) = snd (enc_frame s)).
+Proof.
+  intros Hwf Hc Hemit. unfold enc_frame in *. cbn [fst snd] in *.
+  destruct (vp8_emit_decode rfc_quirks s bs Hwf Hemit) as (r & Hdec & Hw & Hh & _ & Hunf & Hfil).
+  pose proof Hwf as (_ & _ & _ & _ & _ & _ & Hrows & _).
+  pose proof (enc_rows_eq rfc_quirks (fs_hdr s) (fs_rows s) (fs_cols s) Hc Hrows) as Henc.
+  assert (Eu : dc_unfiltered r = planes_of (fh_w (fs_hdr s)) (fh_h (fs_hdr s))
+                 (enc_rows (fs_hdr s) (map cc_pix (fs_cols s)) (fs_rows s))).
+  { rewrite Hunf, Henc. unfold reconstruct. reflexivity. }
+  split.
+  - unfold decode_unfiltered, decode. rewrite Hdec. cbn [bind]. rewrite Hw, Hh, Eu. reflexivity.
+  - intros Hlvl. exists r. split; [exact Hdec|].
+    rewrite Hw, Hh, Hfil, <- Eu, Hunf. unfold reconstruct. cbn [fst snd]. rewrite Hlvl. reflexivity.
 Qed.
